@@ -86,6 +86,32 @@ impl Pipeline {
     }
 }
 
+/// Module path of the warm-up events (cannot collide with generated modules: segments there have ≤ 6 characters).
+pub const WARMUP_MDL: &str = "c13_warmup";
+
+/// The batcher's receivers poll with an idle back-off (1 ms doubling up to 500 ms, reset by every
+/// non-empty batch). With three signals per emitter, a signal that has not seen an event for a few
+/// cases makes the next flush wait for its whole back-off. One throw-away event per signal per case
+/// keeps every receiver at the short end; the oracle drops records whose scope is `WARMUP_MDL`.
+pub fn warm_up(em: &emit_otlp::Otlp) {
+    let ts = |s: u64| emit::Timestamp::from_unix(Duration::from_secs(s)).unwrap();
+    let mdl = emit::Path::new_raw(WARMUP_MDL);
+    let tpl = emit::Template::literal("w");
+    em.emit(emit::Event::new(mdl.clone(), tpl.clone(), emit::Empty, emit::Empty));
+    let span_props = [
+        ("evt_kind", emit::Value::from("span")),
+        ("trace_id", emit::Value::from("00000000000000000000000000000001")),
+        ("span_id", emit::Value::from("0000000000000001")),
+    ];
+    em.emit(emit::Event::new(mdl.clone(), tpl.clone(), ts(1)..ts(2), &span_props[..]));
+    let metric_props = [
+        ("evt_kind", emit::Value::from("metric")),
+        ("metric_agg", emit::Value::from("count")),
+        ("metric_value", emit::Value::from(1)),
+    ];
+    em.emit(emit::Event::new(mdl, tpl, ts(1), &metric_props[..]));
+}
+
 /// Run `f` with exclusive use of a pipeline.
 pub fn with_pipeline<R>(f: impl FnOnce(&mut Pipeline) -> R) -> R {
     let p = POOL.lock().unwrap().pop();
@@ -145,7 +171,12 @@ pub fn term_child_main() -> ! {
         let _ = so.write_all(TERM_SEP.as_bytes());
         let _ = so.flush();
     }
-    ev.with_event(|evt| coloured.emit(evt));
+    // emit_term caches its buffer (and with it the colour mode) per thread: use a fresh thread
+    let ev2 = ev.clone();
+    let t = std::thread::spawn(move || ev2.with_event(|evt| coloured.emit(evt)));
+    if t.join().is_err() {
+        std::process::exit(101);
+    }
     let _ = std::io::stdout().flush();
     std::process::exit(0);
 }
